@@ -136,3 +136,19 @@ reg("C01", harness="c01_deflate", level="exploration", deadline=(400, 2400), ext
     runs={"quick": [dict(flavour="sim")], "thorough": [dict(flavour="sim"), dict(flavour="h8k"), dict(flavour="lht")]},
     rule="case = (input, level, flush, wrapper, hist_bits, table, level_buf, api, cpu level); distinct_nontrivial = number of DISTINCT non-empty "
          "output streams (hash of bytes) that were produced and verified; evaluations = compress calls.")
+
+
+reg("C02", harness="c02_inflate", level="exploration", deadline=(400, 2400), extra_src=["ref/ref_inflate.c"],
+    technique="bounded-exhaustive enumeration of the deflate grammar (block sequences x token strings x code shapes x match length/distance sets) + foreign-encoder streams, x wrapper modes x APIs x decode kernels",
+    level_text="Streams are generated from the grammar by an independent generator: all token strings of length <=2 (3) over an 8-token alphabet in "
+               "fixed / balanced-dynamic / depth-15-dynamic blocks alone and after every kind of first block; a match sweep over 15 lengths x both "
+               "ends of all 30 distance codes (thorough: all 256 lengths, all 32768 distances) after exact-length stored preambles; code shapes "
+               "(depth-15 chains, 13-15-bit lit/len and 11-15-bit distance codes on the used symbols, single-code and empty alphabets, HLIT/HDIST "
+               "at maximum, run-length coded headers, hand-made HCLEN=5); >64 KiB outputs with distance-32768 matches; plus zlib-made streams "
+               "(4 levels x 5 strategies x windowBits x memLevel). Each x up to 7 wrapper modes x {stateless, isal_inflate} x kernels "
+               "{base,_01,_04} x 4 trailing-junk sizes; output, final state, status, reported input position and state.crc are compared with the reference.",
+    level_note="streams outside the enumerated grammar bound are not covered; trusted: ref/ref_gen.h generator + ref/ref_inflate.c, cross-checked "
+               "against each other and zlib on every stream (gate).",
+    runs={"quick": [dict(flavour="sim")], "thorough": [dict(flavour="sim"), dict(flavour="h8k"), dict(flavour="lht")]},
+    rule="case = (stream, wrapper mode, header variant, junk length, cpu level, api); distinct_nontrivial = distinct stream bodies (hash); "
+         "evaluations = decode calls compared with the reference.")
